@@ -65,6 +65,12 @@ const poolWatchdog = 120 * time.Second
 // runPool executes tasks on n worker processes; handle is called (concurrently)
 // for every task.
 func runPool(kind string, n int, tasks [][]byte, handle func(i int, r poolResult)) {
+	runPoolSkip(kind, n, tasks, nil, handle)
+}
+
+// runPoolSkip is runPool with a predicate consulted before each task is
+// dispatched; skipped tasks are not run and not reported.
+func runPoolSkip(kind string, n int, tasks [][]byte, skip func(i int) bool, handle func(i int, r poolResult)) {
 	if n <= 0 {
 		n = runtime.NumCPU()
 	}
@@ -87,6 +93,9 @@ func runPool(kind string, n int, tasks [][]byte, handle func(i int, r poolResult
 				i := int(atomic.AddInt64(&next, 1))
 				if i >= len(tasks) {
 					return
+				}
+				if skip != nil && skip(i) {
+					continue
 				}
 				if p == nil {
 					var err error
